@@ -227,7 +227,8 @@ def invalid_rbs(rng, n):
 
 # ---------------------------------------------------------------------------- bit vectors
 BV_KINDS = ["ref", "rrr", "sparse", "sparse4", "sparse128", "cfrrr"]
-BV_SPECIAL = [0, 1, 2, 3, 15, 16, 17, 62, 63, 64, 65, 125, 126, 127, 128, 255, 256, 257, 503, 504, 505, 511, 512, 513, 1007, 1008, 1009]
+BV_SPECIAL = [0, 1, 2, 3, 15, 16, 17, 62, 63, 64, 65, 125, 126, 127, 128, 255, 256, 257, 503, 504, 505, 511, 512, 513, 1007, 1008, 1009,
+              1448, 1449, 1450, 2897, 2898, 2899, 4032, 4096]   # 63 = word, 504 = rrr block, 1449 = cf_rrr block
 
 
 def runs_to_bits(runs):
@@ -366,7 +367,13 @@ def run(chk):
                      "offsets": offsets, "records": recs, "model": has_model, "tag": tag})
 
     ncorpus = 0
+    corpus_bv = []
     for fn, c in load_corpus():
+        if c.get("kind") == "bv":
+            for ln in c["lines"]:
+                runs = [(int(r.split(":")[0]), int(r.split(":")[1])) for r in ln.split("|")[2].split()]
+                corpus_bv.append(runs)
+            continue
         add_doc(c.get("flags", "CDkRPWXN"), c["text"], c["rb"], c["needles"], c.get("model", True), "corpus:" + fn)
         ncorpus += 1
 
@@ -431,7 +438,7 @@ def run(chk):
 
     lines = [d["line"] for d in docs]
     # ---------------- bit vectors
-    bvs = []
+    bvs = [(runs, len(runs_to_bits(runs)) <= 200) for runs in corpus_bv]
     for k in range(240 if quick else 2500):
         runs = gen_bv_runs(rng, True)
         bvs.append((runs, True))
